@@ -1262,5 +1262,16 @@ def kf_reused_output(case, violation):
         violation.signature.split(":")[1] in ("interpolate_faces_to_vertices", "average_corners_to_vertices", "average_corners_to_faces")
 
 
-MATCHERS = {"kf_nonconvex_faces": kf_nonconvex_faces, "kf_circumcenter_tiny_triangle": kf_circumcenter_tiny_triangle,
+def kf_recall_existing(case, violation):
+    """(only reachable with PENDING['recall_existing']) with config.display_duplicate_attribute_warning = True the second all-default
+    call of degree / angle_defects / cotan_weights / face_area (>4 sides; also after mean_face_area) adds to the existing attribute"""
+    if not case.get("dup_switch") or violation.sub_check not in ("tri_surface", "poly_surface", "tet_volume"):
+        return False
+    sig = violation.signature.split(":")
+    return len(sig) >= 2 and sig[0] in ("ref", "variants", "register", "meta") and any(
+        f in violation.signature for f in ("degree", "angle_defects", "cotan_weights", "face_area", "total_area", "mean_face_area",
+                                           "defect", "cotw", "area"))
+
+
+MATCHERS = {"kf_recall_existing": kf_recall_existing, "kf_nonconvex_faces": kf_nonconvex_faces, "kf_circumcenter_tiny_triangle": kf_circumcenter_tiny_triangle,
             "kf_reused_output": kf_reused_output}
